@@ -1,6 +1,6 @@
 """C05 — cached calls always terminate, promptly (see DESIGN.md 3.5)."""
 from . import _cache
-from ._cache import REAL, STUB, ASSUMPTIONS, shrink, run_case  # noqa
+from ._cache import REAL, STUB, ASSUMPTIONS, shrink  # noqa
 
 PROPERTY = 'C05'
 LEVEL = 'exploration'
@@ -70,3 +70,14 @@ def extra_evidence(agg):
                                  'computation and 25 steps after its exit, for each fixed base program x schedule; the loop then ends by '
                                  'Runner shutdown / close / being left stopped (per base)',
             'exhaustive_dimension': 'stop step within the computation span of each fixed (program, schedule) base case'}
+
+
+def run_case(case):
+    """'Every call finishes - with a value, an exception or its caller's OWN cancellation': C06's foreign-cancel verdict is a C05
+    verdict too (the call did not recover by recomputing)."""
+    r = _cache.run_case(case)
+    for v in list(r['violations']):
+        if v['property'] == 'C06' and v['oracle'] == 'cache.foreign_cancel':
+            r['violations'].append(dict(v, property='C05', oracle='cache.ended_by_foreign_cancel',
+                                        signature="a call ended with a cancellation that was not its caller's own instead of recovering"))
+    return r
